@@ -292,6 +292,7 @@ DIMS = {
 }
 # which option of the tables explains a stale hit when the two runs differ in a dimension
 KEYPFX = "option-not-in-key:"
+KEY_CHECKERS = "checkers-report-unusedfunction-jobs"
 
 
 def enabled_sets(vals):
@@ -376,6 +377,19 @@ def judge_options(ctx, res, tag, optsets, jobs, runs, uncovered):
         names = set()
         for f in hits:
             names |= explain(optsets[last.get(f, 0)], optsets[k])
+        # -jN with a build dir computes unusedFunction through CheckUnusedFunctions::analyseWholeProgram(buildDir), which does not
+        # log "CheckUnusedFunctions::check" as an active checker: the checkersReport information message counts one checker less
+        dc, df = sorted(set(r["cached"]) - set(r["fresh"])), sorted(set(r["fresh"]) - set(r["cached"]))
+        mc = len(dc) == 1 and re.match(r"^nofile\|0\|0\|information\|checkersReport\|Active checkers: (\d+)/(\d+) ", dc[0])
+        mf = len(df) == 1 and re.match(r"^nofile\|0\|0\|information\|checkersReport\|Active checkers: (\d+)/(\d+) ", df[0])
+        sev_k, chk_k = enabled_sets(optsets[k].get("--enable=", []))
+        if mc and mf and int(mf.group(1)) == int(mc.group(1)) + 1 and r["jobs"] > 1 and "unusedFunction" in chk_k and r["rc_c"] == r["rc_f"]:
+            res.violation("run %d of option history %s (-j%d %s): %s with build dir, %s without" % (k, tag, r["jobs"], " ".join(flat(optsets[k])), dc[0], df[0]),
+                          dict(optsets=optsets[:k + 1], jobs=(jobs[:k + 1] if isinstance(jobs, list) else jobs), cached=r["cached"], fresh=r["fresh"]),
+                          concrete=True, key=KEY_CHECKERS)
+            seen.add(KEY_CHECKERS)
+            res.count("known:checkers-report")
+            continue
         what = "run %d of option history %s (%s) with --cppcheck-build-dir reports %s, without build dir %s" % (
             k, tag, " ".join(flat(optsets[k])) or "no options", sorted(set(r["cached"]) - set(r["fresh"]))[:3] or "(nothing extra)",
             sorted(set(r["fresh"]) - set(r["cached"]))[:3] or "(nothing extra)")
@@ -470,7 +484,7 @@ def cli_option_histories(ctx, res, table, used, items, n, nruns):
         seen = judge_options(ctx, res, tag, optsets, jobs, runs, uncovered)
         if c:
             res.extra.setdefault("witnesses", {})[c["name"]] = "reproduces" if c["key"] in seen else "does not reproduce"
-            if c["key"] in seen:
+            if c["key"] in seen and c["key"].startswith(KEYPFX):
                 demonstrated.add(c["key"][len(KEYPFX):])
     missing = sorted(uncovered - demonstrated)
     res.oblig("every-uncovered-option-has-a-failing-input", not missing, "correspondence",
